@@ -15,6 +15,7 @@ from harness.framework import Outcome
 
 ID = "C18"
 TIE_MODULES = ["StathamModel.Tie"]
+PROOF_MODULES = ['StathamModel.Py.EvalTree', 'StathamModel.Lemmas.EvalTree']
 ASSUMPTIONS = ["literal printing is CPython's repr of None/bool/int/finite float/str/list/dict (trusted)"]
 N_TREES = {"quick": 1200, "thorough": 40000}
 # strings that stress the printing of string literals: backslashes with both quote kinds, trailing backslash,
